@@ -177,6 +177,17 @@ func cmdCheck(args []string) int {
 			}
 		}
 	}
+	listedOnly := map[string]bool{}
+	for _, f := range pc.Functions {
+		listedOnly[f] = true
+	}
+	for name, lc := range w.byName {
+		for _, cl := range lc.C.Clauses {
+			if hasTag(splitTags(cl.Tags), *prop) {
+				delete(listedOnly, name)
+			}
+		}
+	}
 	for name := range selected {
 		names = append(names, name)
 	}
@@ -192,7 +203,19 @@ func cmdCheck(args []string) int {
 			run.Stale = append(run.Stale, "no contract for "+name)
 			continue
 		}
-		results = append(results, w.VerifyFunc(lc, opts))
+		fr := w.VerifyFunc(lc, opts)
+		if listedOnly[name] {
+			// listed for its run-time safety only (the property is "does not panic"): its functional postconditions
+			// belong to, and are proved under, the properties they are tagged with
+			var keep []*Obligation
+			for _, o := range fr.Obls {
+				if o.Kind != "post" {
+					keep = append(keep, o)
+				}
+			}
+			fr.Obls = keep
+		}
+		results = append(results, fr)
 	}
 	var lemmaNames []string
 	for name, ll := range w.lemmas {
